@@ -11,7 +11,7 @@ KINDS = ['gaussian', 'gaussian_nc', 'lognormal', 'lognormal_nc', 'truncgauss',
          'pooled', 'hetero']
 
 
-def make(kind, n_dim=1, n_ids=1):
+def make(kind, n_dim=1, n_ids=1, ctor_ids=None):
     if kind == 'gaussian':
         m = chi.GaussianModel(n_dim=n_dim)
     elif kind == 'gaussian_nc':
@@ -25,7 +25,10 @@ def make(kind, n_dim=1, n_ids=1):
     elif kind == 'pooled':
         m = chi.PooledModel(n_dim=n_dim)
     elif kind == 'hetero':
-        m = chi.HeterogeneousModel(n_dim=n_dim, n_ids=n_ids)
+        # ctor_ids: the number of individuals at construction differs from
+        # the number set later (set_n_ids is the documented way to resize)
+        m = chi.HeterogeneousModel(
+            n_dim=n_dim, n_ids=n_ids if ctor_ids is None else ctor_ids)
     else:
         raise ValueError(kind)
     m.set_n_ids(n_ids)
